@@ -95,6 +95,8 @@ func manglersFor(names []string) []transform.Mangler {
 			out = append(out, tagformat.NewTagReformattingMangler(common.DialsTagName, caseconversion.DecodeGoCamelCase, caseconversion.EncodeLowerSnakeCase))
 		case "anonflatten":
 			out = append(out, transform.AnonymousFlattenMangler{})
+		case "pass":
+			out = append(out, &passMangler{})
 		default:
 			panic("harness: unknown mangler " + n)
 		}
@@ -103,7 +105,7 @@ func manglersFor(names []string) []transform.Mangler {
 }
 
 var manglerLists = [][]string{
-	{}, {"setslice"}, {"alias"}, {"tagreformat"}, {"anonflatten"},
+	{}, {"setslice"}, {"alias"}, {"tagreformat"}, {"anonflatten"}, {"pass"},
 	{"setslice", "alias"}, {"alias", "setslice"}, {"tagreformat", "setslice"}, {"anonflatten", "setslice"},
 	{"alias", "tagreformat", "setslice"}, // what ez uses
 }
@@ -592,6 +594,21 @@ func (r *wrapRun) releasedMeanwhile(err error) bool {
 
 func serialW(s dials.CfgSerial[CfgWrap]) uint64 { return reflect.ValueOf(s).FieldByName("s").Uint() }
 
+// passMangler changes nothing. Like most manglers of the library it is a
+// zero-size struct used through a pointer: all such pointers are equal (and
+// print alike), whatever their type.
+type passMangler struct{}
+
+func (*passMangler) Mangle(sf reflect.StructField) ([]reflect.StructField, error) {
+	return []reflect.StructField{sf}, nil
+}
+
+func (*passMangler) Unmangle(_ reflect.StructField, vs []transform.FieldValueTuple) (reflect.Value, error) {
+	return vs[0].Value, nil
+}
+
+func (*passMangler) ShouldRecurse(reflect.StructField) bool { return false }
+
 // yieldMangler passes every field through unchanged; its Mangle is a
 // scheduling point, so that another task can run in the middle of a
 // Transformer's TranslateType (in a real process goroutines are preempted
@@ -715,6 +732,30 @@ func runWrap(sc *Scenario, res *Result, keepLog bool) {
 	defer func() { curWrap, wrapInnerType = nil, nil }()
 	if it, terr := transform.NewTransformer(ptrify.Pointerify(reflect.TypeOf(CfgWrap{}), reflect.ValueOf(CfgWrap{})), manglersFor(w.Manglers)...).TranslateType(); terr == nil {
 		wrapInnerType = it
+	}
+	{
+		// an earlier component of the process has wrapped a source for the same
+		// config type with a mangler list of the same shape, in which the
+		// zero-size manglers are other ones (their pointers are all equal)
+		sib := append([]string(nil), w.Manglers...)
+		differs := false
+		for i, n := range sib {
+			switch n {
+			case "setslice":
+				sib[i], differs = "pass", true
+			case "pass":
+				sib[i], differs = "setslice", true
+			}
+		}
+		if differs && w.Kind != "shared-decoder" {
+			skipInnerType = true
+			typ := dials.NewType(ptrify.Pointerify(reflect.TypeOf(CfgWrap{}), reflect.ValueOf(CfgWrap{})))
+			if _, err := sourcewrap.NewTransformingSource(&wInner{id: 1, own: "Stamp"}, manglersFor(sib)...).Value(r.ctx, typ); err != nil {
+				panic(fmt.Sprint("harness: the sibling wrapper failed: ", err))
+			}
+			skipInnerType = false
+			r.probes["sibling-wrapper-with-other-zero-size-manglers"]++
+		}
 	}
 	defaults := func() *CfgWrap { return &CfgWrap{N: 1, Str: "default", Tags: []string{"t0"}, In: WIn{Name: "in0"}} }
 
